@@ -550,8 +550,12 @@ class Aggregate(list):
     def __getattr__(self, attr: str):
         """Proxy access to attributes of SubAggregates"""
         for subaggregate in self.subaggregates:
-            subagg = getattr(self, subaggregate)
             try:
+                # N.B. list items (ListAggregates) aren't stored as instance
+                # attributes, and a half-constructed instance (e.g. while being
+                # copied or unpickled) has none at all - Element.__get__() then
+                # raises KeyError, which mustn't escape from attribute lookup.
+                subagg = getattr(self, subaggregate)
                 return getattr(subagg, attr)
             except (AttributeError, KeyError):
                 continue
